@@ -23,7 +23,7 @@ from ..model import UNKNOWN, AnchorError, Func, UnknownIdiom, attr_chain, local_
 from .c13_helpers import Defs, resolve_alias
 from .c15_helpers import (ASGI_RESPONSE, RESPONSE, Provenance, Site, controlling_edges, header_sites, is_lower_call, key_case, raises_only,
                           reaching, response_receiver, store_exprs)
-from .common import implied, single, strip_await, walk_self, stmts_walk
+from .common import enclosing_map, implied, single, strip_await, walk_self, stmts_walk
 
 FACTORY = 'falcon.response_helpers._header_property'
 WSGI_EMIT = RESPONSE + '._wsgi_headers'
@@ -1520,6 +1520,46 @@ def r15_disposition_text(run):
 # R17: a failed jar store is not swallowed
 # ---------------------------------------------------------------------------
 
+# what `BaseCookie.__setitem__` raises for an illegal / reserved key, and the classes a handler may name to catch it
+JAR_STORE_FAILURES = ('http.cookies.CookieError', 'builtins.Exception', 'builtins.BaseException')
+
+
+def stmt_of_try_body(tr: ast.Try, stmt):
+    """the statement of tr.body that is or contains `stmt`"""
+    for x in tr.body:
+        if x is stmt or any(y is stmt for y in ast.walk(x)):
+            return x
+    return None
+
+
+def _handler_outcomes(f: Func, stmts) -> Tuple[Set[str], bool]:
+    """How a handler body can end: subset of {'raise', 'return', 'fall'} (fall = completes, control goes on behind the try), and
+    whether it binds anything on the way.  Only straight-line code and if/else are read."""
+    assigns = False
+    out: Set[str] = set()
+    for st in stmts:
+        if isinstance(st, ast.Raise):
+            return out | {'raise'}, assigns
+        if isinstance(st, ast.Return):
+            return out | {'return'}, assigns
+        if isinstance(st, (ast.Pass, ast.Expr)):
+            continue
+        if isinstance(st, (ast.Assign, ast.AugAssign, ast.AnnAssign)):
+            assigns = True
+            continue
+        if isinstance(st, ast.If):
+            o1, a1 = _handler_outcomes(f, st.body)
+            o2, a2 = _handler_outcomes(f, st.orelse) if st.orelse else ({'fall'}, False)
+            assigns = assigns or a1 or a2
+            both = o1 | o2
+            out |= both - {'fall'}
+            if 'fall' not in both:
+                return out, assigns
+            continue
+        raise UnknownIdiom('%s: statement `%s` in the handler of the jar store' % (f.qual, short(st, 60)))
+    return out | {'fall'}, assigns
+
+
 def r17_cookie_store_failure(run):
     """One Set-Cookie line per cookie written.  The jar store ``<jar>[name] = value`` is where http.cookies validates the
     cookie NAME (BaseCookie raises CookieError for an illegal or reserved key; the code documents it by catching it).  When
@@ -1543,21 +1583,48 @@ def r17_cookie_store_failure(run):
         if not values:
             raise AnchorError('%s: the cookie value is never stored' % f.qual)
         vids = [nd.id for (nd, _v, _s) in values]
+        parent = enclosing_map(f.node)
         for (nd, _v, stmt) in values:
-            handlers = sorted({y for (y, l) in cfg.succ[nd.id] if l == 'exc' and cfg.node(y).kind == 'handler'})
+            # handlers that can receive the store's failure.  The engine's CFG gives a subscript STORE no exceptional edge, so
+            # the handlers are found syntactically (the store is in the body of their try) and their bodies are walked on the CFG.
+            handlers = []
+            cur, child = parent.get(id(stmt)), stmt
+            while cur is not None and cur is not f.node:
+                if isinstance(cur, ast.Try) and any(child is x for x in cur.body):
+                    for h in cur.handlers:
+                        types = [] if h.type is None else (list(h.type.elts) if isinstance(h.type, ast.Tuple) else [h.type])
+                        quals = [p.resolve_expr(f.module, t, f) for t in types]
+                        if any(q is None for q in quals):
+                            raise UnknownIdiom('%s: exception class of `%s` not resolved' % (f.qual, short(h, 60)))
+                        if h.type is None or any(q in JAR_STORE_FAILURES for q in quals):
+                            handlers.append((h, cur))
+                child, cur = cur, parent.get(id(cur))
             if not handlers:
                 n += 1
-                run.ok('%s: a failure of the jar store propagates (no handler around it)' % f.name, f.loc(stmt), stmt)
+                run.ok('%s: a failure of the jar store propagates (no handler for it around the store)' % f.name, f.loc(stmt), stmt)
                 continue
-            for h in handlers:
+            for (h, tr) in handlers:
                 n += 1
-                path = flow.find_path(cfg, [h], [cfg.exit], avoid_nodes=vids, edge_filter=flow.no_exc)
-                hn = cfg.node(h)
-                run.check(path is None, '%s: when the jar store fails (illegal or reserved cookie name) the call does not complete normally: '
-                                        'every path from the handler raises' % f.name, f, hn.ast, where='%s:%s' % (f.file, hn.lineno),
-                          witness=flow.describe_path(cfg, path) if path else None,
-                          runtime_witness="resp.%s('bad name', ...%s) returns normally and no Set-Cookie line is emitted for it"
-                                          % (f.name, ', secure=False, http_only=False' if f.name == 'set_cookie' else ''))
+                outcomes, assigns = _handler_outcomes(f, h.body)
+                rw = "resp.%s('bad name', ...%s) returns normally and no Set-Cookie line is emitted for it" % (
+                    f.name, ', secure=False, http_only=False' if f.name == 'set_cookie' else '')
+                what = ('%s: when the jar store fails (illegal or reserved cookie name) the call does not complete normally: '
+                        'every path from the handler raises' % f.name)
+                if 'return' in outcomes:
+                    run.fail(what, f, h, where=f.loc(h), witness=['the handler returns'], runtime_witness=rw)
+                    continue
+                if 'fall' not in outcomes:
+                    run.ok(what, f.loc(h), h)
+                    continue
+                # the handler can complete: control continues behind the try statement, with the cookie missing from the jar
+                if assigns:
+                    raise UnknownIdiom('%s: the handler `%s` records something and goes on; what follows is not related to it' % (f.qual, short(h, 60)))
+                if tr.orelse or tr.finalbody or tr.body[-1] is not stmt_of_try_body(tr, stmt):
+                    raise UnknownIdiom('%s: continuation of the try statement around the jar store' % f.qual)
+                cont = [y for (y, l) in cfg.succ[nd.id] if l != 'exc']
+                path = flow.find_path(cfg, cont, [cfg.exit], avoid_nodes=vids, edge_filter=flow.no_exc)
+                run.check(path is None, what, f, h, where=f.loc(h),
+                          witness=(['the handler completes; then:'] + flow.describe_path(cfg, path)) if path else None, runtime_witness=rw)
     if n == 0:
         raise AnchorError('no jar store found in set_cookie/unset_cookie')
 
